@@ -31,7 +31,7 @@ MANIFEST = dict(
     technique="Lean 4 refinement proof (code-mirror = recursive evaluator, laws of the evaluator, generated tables) + differential correspondence + direct Python oracle",
 )
 
-# numbering of the classes the model knows by name = position in Gen.knownStringClasses (translate/parts_c13.py KNOWN)
+# numbering of the classes the model knows by name = position in Gen.c13KnownStringClasses (translate/parts_c13.py KNOWN)
 KNOWN = ["NavigableString", "PreformattedString", "CData", "ProcessingInstruction", "XMLProcessingInstruction",
          "Comment", "Declaration", "Doctype", "Stylesheet", "Script", "TemplateString", "RubyTextString",
          "RubyParenthesisString"]
@@ -456,7 +456,35 @@ def build(recipe):
             set_exp(t, expected_interesting(sc, t.name))
     for op in recipe.get("ops", []):
         apply_op(soup, sc, tuple(op))
+    post = recipe.get("post")
+    if post:
+        soup = apply_post(soup, post, sc)
     return soup, sc
+
+
+def apply_post(soup, post, sc):
+    """a copy of the whole document or of one element becomes the tree under test; the copy must keep the configuration
+    (interesting_string_types of every tag, class of every string) of the original, element by element"""
+    kind = post[0]
+    if kind == "copy_soup":
+        cl = copy.copy(soup)
+        src = soup
+    elif kind == "deepcopy_soup":
+        cl = copy.deepcopy(soup)
+        src = soup
+    else:
+        src = soup
+        for i in post[1]:
+            src = src.contents[i]
+        cl = copy.deepcopy(src) if kind == "deepcopy" else copy.copy(src)
+    for a, b in zip(all_nodes(src), all_nodes(cl)):
+        if is_tag(a):
+            set_exp(b, get_exp(a))
+    if kind in ("copy_soup", "deepcopy_soup"):
+        # BeautifulSoup.copy_self() makes a new BeautifulSoup object from the same builder: the root's own
+        # interesting_string_types is the builder's again (a value set by hand on the original root is not carried over)
+        set_exp(cl, expected_interesting(sc, cl.name))
+    return cl
 
 
 # --------------------------------------------------------------------------------------
@@ -976,6 +1004,15 @@ def stream_random(ctx, batch, n_trees):
             ctx.count("tree:skipped-large")
             continue
         check_tree(ctx, batch, recipe, soup, sc, "random-trees", random_plan(r, 4), ti)
+        if r.random() < 0.2:
+            tags = [p for n, p in paths(soup) if is_tag(n) and p]
+            k = r.random()
+            post = ["copy_soup"] if k < 0.3 else ["deepcopy_soup"] if k < 0.45 else \
+                ([r.choice(("deepcopy", "copy")), list(r.choice(tags))] if tags else ["copy_soup"])
+            recipe2 = dict(recipe, post=post)
+            cl = apply_post(soup, post, sc)
+            ctx.count("tree:copy-" + post[0])
+            check_tree(ctx, batch, recipe2, cl, sc, "copies", random_plan(r, 2), 6_000_000 + ti)
 
 
 def stream_positions(ctx, batch):
@@ -1085,6 +1122,176 @@ def stream_string_container(ctx):
             if not any(v["case"] == cs for v in ctx.violations):
                 ctx.violation("Lean mirror of Tag.__init__'s interesting_string_types and implementation disagree",
                               case=cs | {"line": l}, observed=a, model=b, stream="interesting-correspondence", no_failing_input=True)
+
+
+def sc_tok(d):
+    if d is None:
+        return None
+    return ";".join(f"{arg_tok(k)}:{cls_code(v)}" for k, v in d.items()) or "-"
+
+
+def int_tok_of_value(val):
+    """tag.interesting_string_types (live attribute) -> canonical token (collections as sorted sets)"""
+    if val is None:
+        return "N"
+    if isinstance(val, type):
+        return f"o{cls_code(val)}"
+    codes = sorted(cls_code(k) for k in val)
+    return "m" + (".".join(map(str, codes)) if codes else "-")
+
+
+def canon_int_reply(rep: str) -> str:
+    if rep.startswith("ok m") and rep != "ok m-":
+        return "ok m" + ".".join(sorted(rep[4:].split("."), key=int))
+    return rep
+
+
+def stream_config(ctx):
+    """the builder's string_containers option, Tag.__init__ with/without a builder, new_tag, copy_self, nested containers"""
+    e = E()
+    c = e["cls"]
+    from bs4.builder import TreeBuilder, HTMLParserTreeBuilder
+    Tag = e["el"].Tag
+    drv = Driver()
+    lines, real, cases = [], [], []
+    custom = [{}, {"b": c["SubNS"]}, {"script": c["NavigableString"], "p": c["Comment"]},
+              dict(e["live_containers"]) | {"i": c["CData"]}]
+    params = [("omit", None), ("N", None), ("o5", c["Comment"]), ("m5", {c["Comment"]}), ("m-", ()), ("m0.9", [c["NavigableString"], c["Script"]])]
+    names = sorted(set(ORD_TAGS + list(PROP_CONTAINERS) + list(e["live_containers"]) + ["[document]", "noscript"]))
+    for bcls, prop_dflt in ((HTMLParserTreeBuilder, PROP_CONTAINERS), (TreeBuilder, {})):
+        live_dflt = bcls.DEFAULT_STRING_CONTAINERS
+        for argname, arg in [("U", "omit"), ("N", None)] + [("D", d) for d in custom]:
+            try:
+                b = bcls() if arg == "omit" else bcls(string_containers=arg)
+            except Exception as ex:
+                ctx.violation("constructing a builder with this string_containers value raises", case={"op": "config", "builder": bcls.__name__, "arg": argname},
+                              observed=repr(ex), stream="config")
+                continue
+            got_sc = b.string_containers
+            argtok = "U" if arg == "omit" else "N" if arg is None else "D:" + sc_tok(arg)
+            lines.append(f"c13 scarg {sc_tok(live_dflt)} {argtok}")
+            real.append("none" if got_sc is None else "some " + sc_tok(got_sc))
+            cases.append({"op": "config", "what": "builder-option", "builder": bcls.__name__, "arg": argname})
+            ctx.case(("CFG", bcls.__name__, argtok))
+            # property-direct expectation of the table in force
+            if arg == "omit":
+                want_sc = {k: c[v] for k, v in prop_dflt.items()}
+                if got_sc != want_sc:
+                    ctx.violation("the default string_containers of this builder class are not the documented ones",
+                                  case=cases[-1], expected=sorted(prop_dflt.items()), observed=sorted((k, v.__name__) for k, v in got_sc.items()), stream="config")
+            elif arg is not None and got_sc != arg:
+                ctx.violation("a string_containers dictionary passed to the builder is not used as given", case=cases[-1],
+                              expected=sc_tok(arg), observed=sc_tok(got_sc), stream="config")
+            btok = "BN" if got_sc is None else "B:" + sc_tok(got_sc)
+            eff = None if got_sc is None else {k: v.__name__ for k, v in got_sc.items()}
+            soup = None
+            if bcls is HTMLParserTreeBuilder:
+                try:
+                    soup = e["BeautifulSoup"]("", builder=b)
+                    if got_sc is None:
+                        ctx.notes.append("string_containers=None did not raise at BeautifulSoup construction")
+                except TypeError:
+                    ctx.count("config:soup-TypeError")
+                    soup = None
+            for nm in names:
+                for ptok, pval in params:
+                    for mode in ("builder", "bare"):
+                        kw = {} if ptok == "omit" else {"interesting_string_types": pval}
+                        try:
+                            t = Tag(builder=b, name=nm, **kw) if mode == "builder" else Tag(name=nm, **kw)
+                            got = "ok " + int_tok_of_value(t.interesting_string_types)
+                        except TypeError:
+                            got = "TypeError"
+                        lines.append(f"c13 taginit {btok if mode == 'builder' else 'N'} {arg_tok(nm)} {'N' if ptok == 'omit' else ptok}")
+                        real.append(got)
+                        cases.append({"op": "config", "what": "Tag()", "builder": bcls.__name__ if mode == "builder" else None, "arg": argname,
+                                      "name": nm, "param": ptok})
+                        ctx.case(("TAG", bcls.__name__, argtok, nm, ptok, mode))
+                        ctx.count("config:Tag-" + mode)
+                        # property: with a builder whose table is a dict, the table decides; without one, the argument is kept
+                        if mode == "builder" and eff is not None:
+                            want = "ok " + int_tok_of_value({c[n] for n in expected_interesting(eff, nm)[1]})
+                        elif mode == "bare":
+                            want = "ok " + int_tok_of_value(pval)
+                        else:
+                            want = None
+                        if want is not None and got != want:
+                            if sum(1 for v in ctx.violations if v["stream"] == "config") < 6:
+                                ctx.violation("a new Tag's interesting_string_types is not what its builder's string_containers (or, without a "
+                                              "builder, the argument) says", case=cases[-1], expected=want, observed=got, stream="config")
+                        # copy_self keeps it
+                        if got.startswith("ok"):
+                            cp = t.copy_self()
+                            gotc = "ok " + int_tok_of_value(cp.interesting_string_types)
+                            lines.append(f"c13 copyself {arg_tok(nm)} {got[3:]}")
+                            real.append(gotc)
+                            cases.append({"op": "config", "what": "copy_self", "name": nm, "of": got})
+                            ctx.case(None)
+                            if gotc != got and sum(1 for v in ctx.violations if v["stream"] == "config") < 6:
+                                ctx.violation("copy_self() does not keep interesting_string_types", case=cases[-1], expected=got, observed=gotc, stream="config")
+                if soup is not None:
+                    t = soup.new_tag(nm)
+                    got = "ok " + int_tok_of_value(t.interesting_string_types)
+                    lines.append(f"c13 newtag {btok} {arg_tok(nm)}")
+                    real.append(got)
+                    cases.append({"op": "config", "what": "new_tag", "arg": argname, "name": nm})
+                    ctx.case(("NEWTAG", argtok, nm))
+                    want = "ok " + int_tok_of_value({c[n] for n in expected_interesting(eff, nm)[1]})
+                    if got != want and sum(1 for v in ctx.violations if v["stream"] == "config") < 6:
+                        ctx.violation("new_tag()'s interesting_string_types is not what the builder's string_containers says", case=cases[-1],
+                                      expected=want, observed=got, stream="config")
+    rep = drv.ask(lines)
+    for l, a, b_, cs in zip(lines, real, rep, cases):
+        if a != canon_int_reply(b_):
+            ctx.corr_disagreements += 1
+            if not any(v["case"] == cs for v in ctx.violations) and sum(1 for v in ctx.violations if v["stream"] == "config-correspondence") < 6:
+                ctx.violation("Lean mirror of the configuration handling and implementation disagree", case=cs | {"line": l},
+                              observed=a, model=b_, stream="config-correspondence", no_failing_input=True)
+    ctx.count("config:requests", len(lines))
+
+
+def stream_nesting(ctx, n_docs):
+    """nested and re-opened string containers: <a><rt><template><b>x ... - the class of x is that of the innermost OPEN container"""
+    e = E()
+    c = e["cls"]
+    lines, real, cases = [], [], []
+    for di in range(n_docs):
+        r = ctx.rng("nesting", di)
+        cfg = r.choice(["default", "default", "default+", "b-sub", "empty"])
+        kwargs, sc = config_containers(cfg)
+        pool = ["b", "p", "i", "div", "template", "rt", "rp", "template", "rt"]
+        open_names = []
+        markup = ""
+        for _ in range(r.randint(1, 8)):
+            if open_names and r.random() < 0.3:
+                markup += f"</{open_names.pop()}>"
+            else:
+                nm = r.choice(pool)
+                open_names.append(nm)
+                markup += f"<{nm}>"
+        markup += f"x{di}"
+        soup = e["BeautifulSoup"](markup, "html.parser", **kwargs)
+        strs = [s for s in all_nodes(soup) if isinstance(s, e["el"].NavigableString) and str(s) == f"x{di}"]
+        got = type(strs[0]).__name__ if len(strs) == 1 else f"<{len(strs)} strings>"
+        inner = next((n for n in reversed(open_names) if n in sc), None)
+        want = sc[inner] if inner is not None else "NavigableString"
+        ctx.case(("NEST", markup, cfg) if sum(1 for n in open_names if n in sc) >= 2 else None)
+        ctx.count("nesting:open-containers-" + str(min(3, sum(1 for n in open_names if n in sc))))
+        case = {"op": "nesting", "markup": markup, "config": cfg, "open": open_names}
+        if got != want and sum(1 for v in ctx.violations if v["stream"] == "nesting") < 4:
+            ctx.violation("text inside nested string containers does not get the class of the innermost open one", case=case,
+                          expected=want, observed=got, stream="nesting")
+        live_sc = soup.builder.string_containers
+        lines.append(f"c13 cstack {sc_tok(live_sc)} {';'.join(arg_tok(n) for n in reversed(open_names)) or '-'}")
+        real.append((arg_tok(inner) if inner is not None else "N") + " " + (str(cls_code(c[got])) if got in c else got))
+        cases.append(case)
+    rep = Driver().ask(lines)
+    for l, a, b_, cs in zip(lines, real, rep, cases):
+        if a != b_:
+            ctx.corr_disagreements += 1
+            if not any(v["case"] == cs for v in ctx.violations) and sum(1 for v in ctx.violations if v["stream"] == "nesting-correspondence") < 4:
+                ctx.violation("Lean mirror of the container stack and implementation disagree", case=cs | {"line": l}, observed=a, model=b_,
+                              stream="nesting-correspondence", no_failing_input=True)
 
 
 def stream_strip(ctx):
@@ -1382,6 +1589,8 @@ def run(ctx: Ctx):
     stream_corpus(ctx, batch)
     stream_strip(ctx)
     stream_string_container(ctx)
+    stream_config(ctx)
+    stream_nesting(ctx, ctx.n(400, 4000))
     stream_positions(ctx, batch)
     stream_heap(ctx, ctx.n(500, 5000))
     stream_malformed(ctx, batch, ctx.n(600, 6000))
@@ -1441,6 +1650,19 @@ def replay(path):
         print("implementation:", got)
         print("property demands:", want)
         return 0 if got == want else 1
+    if c.get("op") == "nesting":
+        e = E()
+        kwargs, sc = config_containers(c["config"])
+        soup = e["BeautifulSoup"](c["markup"], "html.parser", **kwargs)
+        strs = [(type(s).__name__, str(s)) for s in all_nodes(soup) if isinstance(s, e["el"].NavigableString)]
+        print("markup:", c["markup"], "config:", c["config"])
+        print("implementation:", strs)
+        print("property demands class:", v.get("expected"))
+        return 0 if strs and strs[-1][0] == v.get("expected") else 1
+    if c.get("op") == "config":
+        print(json.dumps(c))
+        print("implementation:", v.get("observed"), " property demands:", v.get("expected"), " model:", v.get("model_reply"))
+        return 1
     if c.get("op") == "heap":
         w = run_heap_case(None, c)
         if w is None:
